@@ -34,9 +34,9 @@ ALLFAMS = ["damage", "local1", "local2", "link2", "link3", "link3w", "bias", "ra
 FAMILIES = {
     # (families, Scale, NSample) per tier
     "quick": (["damage", "local1", "local2", "link2", "link3", "bias", "random"], 0, 6000),
-    "thorough": (ALLFAMS, 1, 60000),
+    "thorough": (ALLFAMS, 1, 40000),
 }
-GEN_N = {"quick": 1600, "thorough": 12000}
+GEN_N = {"quick": 1600, "thorough": 8000}
 BYTES_ID0 = 10_000_000
 WITNESS_ID0 = 20_000_000
 
@@ -403,8 +403,10 @@ def run(ctx, only_replay=None):
 
 
 def replay(ctx, path):
-    rep = json.load(open(path))["replay"]
-    print(json.dumps({k: rep.get(k) for k in ("what", "class", "reasons", "claimed", "row")}, indent=1)[:3000])
+    doc = json.load(open(path))
+    rep = doc["replay"]
+    print(str(doc.get("what", ""))[:3000])
+    print(json.dumps({k: rep.get(k) for k in ("key", "class", "reasons", "claimed", "row")})[:3000])
     case_class, confirmed = run(ctx, only_replay=rep)
     if not confirmed:
         print("replay: the recorded result is ACCEPTED now")
